@@ -4,7 +4,7 @@
    engine(document) = generation rules(document) for that fragment. *)
 From Coq Require Import String Lia.
 From Morph Require Import Base.UStr Gen.Tables Model.Terms Model.Data Model.Engine Model.Mapping Model.Spec
-     Proofs.DataP Proofs.GroupingP Proofs.TemplateP Proofs.TermP Proofs.RowwiseP Proofs.RowSpecP Proofs.NormaliseP Proofs.GraphsP.
+     Proofs.DataP Proofs.GroupingP Proofs.TemplateP Proofs.TermP Proofs.RowwiseP Proofs.RowSpecP Proofs.NormaliseP Proofs.GraphsP Proofs.UnionP.
 Local Open Scope N_scope.
 
 Definition olist {A} (x : option A) : list A := match x with Some a => [a] | None => [] end.
@@ -330,3 +330,138 @@ Section TmEquiv2.
       reflexivity.
   Qed.
 End TmEquiv2.
+
+(* ---------------------------------------------------------------- the rest of the normalisation chain on plain documents *)
+Definition with_id (k : nat) (r : rule) : rule :=
+  {| r_id := dec_of_nat k ++ sep_open ++ [] ++ sep_comma ++ [] ++ sep_close; r_tm := r_tm r; r_src := r_src r; r_asserted := r_asserted r;
+     r_sk := r_sk r; r_sv := r_sv r; r_stt := r_stt r; r_pk := r_pk r; r_pv := r_pv r;
+     r_ok := r_ok r; r_ov := r_ov r; r_ott := r_ott r;
+     r_ld := r_ld r; r_ldk := r_ldk r; r_ldv := r_ldv r; r_gk := r_gk r; r_gv := r_gv r;
+     r_sjoin := r_sjoin r; r_ojoin := r_ojoin r |}.
+Definition unquoted (r : rule) : bool :=
+  negb (mkind_eqb (r_sk r) KQuoted) && negb (mkind_eqb (r_ok r) KQuoted) && negb (mkind_eqb (r_ok r) KParent).
+
+Lemma rmap_all_pure {A B} (g : A -> B) l : rmap_all (fun x => Ok (g x)) l = Ok (map g l).
+Proof. induction l as [|x l IH]; simpl; auto. now rewrite IH. Qed.
+Lemma expand_plain f nb tm : (forall kr, In kr nb -> unquoted (snd kr) = true) ->
+  expand_tm (S f) nb tm = Ok (map (fun kr => with_id (fst kr) (snd kr)) (filter (fun kr => ueqb (r_tm (snd kr)) tm) nb)).
+Proof.
+  intro H. cbn [expand_tm].
+  rewrite (rmap_all_ext_in _ (fun kr => Ok [with_id (fst kr) (snd kr)])).
+  - rewrite rmap_all_pure. cbn [rbind]. f_equal. induction (filter _ nb) as [|x l IH]; simpl; auto. now rewrite IH.
+  - intros [k r] Hin. apply filter_In in Hin as [Hin _]. specialize (H (k, r) Hin). unfold unquoted in H. cbn [snd] in H.
+    rewrite !andb_true_iff, !negb_true_iff in H. destruct H as [[H1 H2] _]. rewrite H1, H2. reflexivity.
+Qed.
+
+Lemma prepared_nopoms t : (match t_poms (prepare_tm t) with [] => true | _ => false end) = (match t_poms t, t_classes t with [], [] => true | _, _ => false end).
+Proof. unfold prepare_tm. rewrite prepare_poms. destruct (t_poms t), (t_classes t); reflexivity. Qed.
+
+Lemma plain_base_rules d t rs : plain_tm t = true -> base_rules_of d (prepare_tm t) = Ok rs ->
+  forall r, In r rs -> unquoted r = true /\ r_src r = t_src t /\ r_asserted r = asserted t.
+Proof.
+  intros Hpl Hb r Hr. pose proof Hpl as Hpl0. unfold plain_tm in Hpl. rewrite !andb_true_iff in Hpl. destruct Hpl as [[[Hsub Hsg] Hpoms] _].
+  assert (Hsk : mkind_eqb (m_kind (t_subj t)) KQuoted = false).
+  { unfold plain_map in Hsub. apply andb_true_iff in Hsub as [H _]. now destruct (m_kind (t_subj t)). }
+  assert (Ea : negb (t_nonasserted (prepare_tm t)) && negb (match t_poms (prepare_tm t) with [] => true | _ => false end) = asserted t).
+  { rewrite prepared_nopoms. unfold asserted. reflexivity. }
+  destruct (t_poms (prepare_tm t)) as [|p0 ps0] eqn:Ep.
+  - rewrite base_rules_unfold in Hb. cbv zeta in Hb. rewrite Ep in Hb. destruct (negb _) in Hb; [discriminate|]. injection Hb as <-.
+    destruct Hr as [<-|[]]. unfold unquoted. cbn [mk_rule r_sk r_ok r_src r_asserted]. cbn [prepare_tm complete_default_graph sgraphs_to_pom class_to_pom t_subj t_src].
+    rewrite Hsk. repeat split; auto.
+  - assert (Hne : t_poms (prepare_tm t) <> []) by (rewrite Ep; discriminate).
+    destruct (base_rules_in d (prepare_tm t) rs Hb Hne) as [_ Hin]. cbv zeta in Hin. apply Hin in Hr as (pm' & Hpm' & Hr).
+    unfold prepare_tm in Hpm'. rewrite prepare_poms in Hpm'. apply in_map_iff in Hpm' as (pm & <- & Hpm).
+    assert (Ppm : plain_pom pm = true).
+    { apply in_app_iff in Hpm as [H|H]; [rewrite forallb_forall in Hpoms; auto|]. apply in_map_iff in H as (c & <- & _). apply class_pom_plain. }
+    unfold plain_pom in Ppm. rewrite !andb_true_iff in Ppm. destruct Ppm as [[Pp Po] Pg].
+    unfold pom_rules in Hr. apply gen_in in Hr as (p & o & ott & ld & ldk & ldv & gm & Hp & Hrow & Hgm & ->). cbn [p_preds p_objs p_graphs] in *.
+    rewrite effective_plain in Hrow by exact Po. cbn [p_objs] in Hrow. apply in_flat_map in Hrow as (o' & Ho & Hrow).
+    assert (Plo : plain_objmap o' = true) by (rewrite forallb_forall in Po; auto).
+    unfold obj_rows in Hrow. apply in_map_iff in Hrow as (ldr & E & _). injection E as <- _ _.
+    unfold unquoted. cbn [mk_rule r_sk r_ok r_src r_asserted]. cbn [prepare_tm complete_default_graph sgraphs_to_pom class_to_pom t_subj t_src].
+    rewrite Hsk. unfold plain_objmap, plain_map in Plo. rewrite !andb_true_iff in Plo. destruct Plo as [[Hk _] _].
+    repeat split; auto.
+    + destruct (m_kind (o_tm o')); try discriminate; reflexivity.
+    + rewrite <- Ea. rewrite Ep. reflexivity.
+Qed.
+
+Lemma dedup_first_aux_in l : forall seen x, In x (dedup_first_aux seen l) <-> In x l /\ mem x seen = false.
+Proof.
+  induction l as [|y l IH]; intros seen x; simpl; [tauto|]. destruct (mem y seen) eqn:E.
+  - rewrite IH. split; [intros [H1 H2]; auto|]. intros [[->|H1] H2]; [congruence|auto].
+  - simpl. rewrite IH. simpl. split.
+    + intros [->|[H1 H2]]; [auto|]. apply orb_false_iff in H2 as [_ H2]. auto.
+    + intros [[->|H1] H2]; [auto|]. destruct (ueqb x y) eqn:E2; [apply ueqb_eq in E2; subst; auto|]. right. split; auto; simpl; now rewrite ?E2.
+Qed.
+Lemma dedup_first_in l x : In x (dedup_first l) <-> In x l.
+Proof. unfold dedup_first. rewrite dedup_first_aux_in. simpl. tauto. Qed.
+Lemma number_from_in {A} (l : list A) : forall k0 k x, In (k, x) (number_from k0 l) -> In x l.
+Proof.
+  induction l as [|y l IH]; intros k0 k x; simpl; [tauto|]. intros [E|H].
+  - injection E as _ E2. now left.
+  - right. eapply IH. exact H.
+Qed.
+Lemma number_from_all {A} (l : list A) : forall k0 x, In x l -> exists k, In (k, x) (number_from k0 l).
+Proof. induction l as [|y l IH]; intros k0 x; simpl; [tauto|]. intros [->|H]; [exists k0; auto|]. destruct (IH (S k0) x H) as (k & Hk). eauto. Qed.
+Lemma spec_rule_line_with_id scfg k r sr : spec_rule_line scfg (with_id k r) sr = spec_rule_line scfg r sr.
+Proof. reflexivity. Qed.
+
+Section DocEquiv.
+  Variables (scfg : scfg) (fe : fenv) (tables : ustr -> stable).
+  Hypothesis Hnq : s_nquads scfg = true.
+
+  (* the generation rules read on the document and read rule by rule on its normalised table give the same statements *)
+  Theorem doc_spec_is_rule_spec d0 rules : forallb plain_tm d0 = true -> normalise d0 = Ok rules ->
+    forall x, In x (spec_lines scfg fe d0 tables) <->
+              exists rl sr, In rl rules /\ r_asserted rl = true /\ In sr (tables (r_src rl)) /\ spec_rule_line scfg rl sr = Some x.
+  Proof.
+    intros Hpl Hn. unfold normalise in Hn. set (d := prepare d0) in *.
+    destruct (forallb _ d) in Hn; [discriminate|].
+    destruct (rmap_all (base_rules_of d) d) as [base|e] eqn:Eb; cbn [rbind] in Hn; [|discriminate].
+    apply rmap_all_ok in Eb.
+    assert (Ed : d = map prepare_tm d0) by reflexivity.
+    assert (Tm : forall t, In t d0 -> exists rs, In rs base /\ base_rules_of d (prepare_tm t) = Ok rs).
+    { intros t Ht. assert (X : In (prepare_tm t) d) by (rewrite Ed; now apply in_map). destruct (Forall2_in_l _ _ _ _ Eb X) as (rs & H1 & H2). eauto. }
+    assert (Rs : forall rs, In rs base -> exists t, In t d0 /\ base_rules_of d (prepare_tm t) = Ok rs).
+    { intros rs Hrs. destruct (Forall2_in_r _ _ _ _ Eb Hrs) as (t' & H1 & H2). rewrite Ed in H1. apply in_map_iff in H1 as (t & <- & Ht). eauto. }
+    assert (Pl : forall t, In t d0 -> plain_tm t = true) by (rewrite forallb_forall in Hpl; auto).
+    set (nb := number_from 0 (concat base)) in *.
+    assert (Unq : forall kr, In kr nb -> unquoted (snd kr) = true).
+    { intros [k r] H. apply number_from_in in H. apply in_concat in H as (rs & Hrs & Hr). destruct (Rs rs Hrs) as (t & Ht & Hb).
+      now destruct (plain_base_rules d t rs (Pl t Ht) Hb r Hr). }
+    rewrite (rmap_all_ext _ (fun tm => Ok (map (fun kr => with_id (fst kr) (snd kr)) (filter (fun kr => ueqb (r_tm (snd kr)) tm) nb)))) in Hn
+      by (intro tm; now apply expand_plain).
+    rewrite rmap_all_pure in Hn. cbn [rbind] in Hn.
+    set (mid := concat (map _ (dedup_first (tm_ids d)))) in Hn.
+    assert (Mid : forall rl, In rl mid <-> exists k r, In (k, r) nb /\ In (r_tm r) (tm_ids d) /\ rl = with_id k r).
+    { intro rl. unfold mid. rewrite in_concat. split.
+      - intros (l & Hl & Hr). apply in_map_iff in Hl as (tm & <- & Htm). apply in_map_iff in Hr as ([k r] & <- & Hf).
+        apply filter_In in Hf as [Hf E]. apply ueqb_eq in E. cbn [snd fst] in *. exists k, r. repeat split; auto. rewrite E. now apply dedup_first_in.
+      - intros (k & r & Hkr & Hid & ->). eexists. split; [apply in_map_iff; exists (r_tm r); split; [reflexivity|now apply dedup_first_in]|].
+        apply in_map_iff. exists (k, r). split; auto. apply filter_In. split; auto. apply ueqb_refl. }
+    assert (Res : rmap_all (resolve_parent mid) mid = Ok mid).
+    { rewrite (rmap_all_ext_in _ (fun r => Ok ((fun x => x) r))); [rewrite rmap_all_pure; now rewrite map_id|].
+      intros rl Hrl. apply Mid in Hrl as (k & r & Hkr & _ & ->). specialize (Unq (k, r) Hkr). unfold unquoted in Unq. cbn [snd] in Unq.
+      rewrite !andb_true_iff, !negb_true_iff in Unq. destruct Unq as [_ U]. unfold resolve_parent. cbn [with_id r_ok]. now rewrite U. }
+    rewrite Res in Hn. cbn [rbind] in Hn. destruct (existsb rule_has_blank mid) in Hn; [discriminate|]. injection Hn as <-.
+    intro x. unfold spec_lines. rewrite mem_dedup, in_flat_map. split.
+    - intros (t & Ht & Hx). destruct (asserted t) eqn:Ea; [|contradiction]. apply in_flat_map in Hx as (sr & Hsr & Hx).
+      destruct (Tm t Ht) as (rs & Hrs & Hb).
+      destruct (proj1 (tm_lines_equiv scfg fe d0 tables d Hnq t sr rs (Pl t Ht) Hb x) Hx) as (rl0 & Hrl0 & Hline).
+      destruct (plain_base_rules d t rs (Pl t Ht) Hb rl0 Hrl0) as (_ & Hsrc & Hass).
+      destruct (base_rules_asserted d (prepare_tm t) rs rl0 Hb Hrl0) as [_ Htm].
+      assert (Hc : In rl0 (concat base)) by (apply in_concat; eauto).
+      destruct (number_from_all (concat base) 0 rl0 Hc) as (k & Hk).
+      exists (with_id k rl0), sr. split; [|split; [|split]].
+      + apply Mid. exists k, rl0. repeat split; auto. rewrite Htm. unfold tm_ids. rewrite Ed, map_map. apply in_map_iff. exists t. auto.
+      + cbn [with_id r_asserted]. now rewrite Hass.
+      + cbn [with_id r_src]. now rewrite Hsrc.
+      + exact Hline.
+    - intros (rl & sr & Hrl & Has & Hsr & Hline). apply Mid in Hrl as (k & r & Hkr & _ & ->).
+      apply number_from_in in Hkr. apply in_concat in Hkr as (rs & Hrs & Hr). destruct (Rs rs Hrs) as (t & Ht & Hb).
+      destruct (plain_base_rules d t rs (Pl t Ht) Hb r Hr) as (_ & Hsrc & Hass).
+      cbn [with_id r_asserted r_src] in Has, Hsr. rewrite spec_rule_line_with_id in Hline.
+      exists t. split; auto. rewrite <- Hass, Has. apply in_flat_map. exists sr. split; [now rewrite <- Hsrc|].
+      apply (tm_lines_equiv scfg fe d0 tables d Hnq t sr rs (Pl t Ht) Hb). eauto.
+  Qed.
+End DocEquiv.
